@@ -58,6 +58,25 @@ CHECKS = {
     ),
 }
 
+CHECKS.update(
+    {
+        "C12": (
+            "exhaustive enumeration of the period comparators over all day pairs in a 42-year window (thorough) + Hypothesis-generated indices/flags/call sequences vs datetime-only reference oracles",
+            "Comparator table enumerated completely within the stated bound in the thorough tier (quick: year-end straddles + strided sample); RunPeriod.__call__ and the counting/date "
+            "schedulers are searched with generated indices, flag combinations and call sequences against reference implementations.",
+            "First/last date are governed by their flags only (pinned by the repository's own test); week = ISO week.",
+            "5/C12",
+        ),
+        "C13": (
+            "exhaustive truth tables of stacks up to length 6 (and one level of nesting) against a reference interpreter + Hypothesis recursive stack trees + spy algos inside generated backtests",
+            "All 55,987 flat stacks of length 0-6 over {T,F}x{plain, run_always True/False}, one-level nested stacks/Or/Not and the Require table are enumerated completely; deeper nestings, "
+            "Strategy.run ordering/temp/perm and RunIfOutOfBounds are searched with generated cases.",
+            "Algos return real bools; the cash metric of RunIfOutOfBounds is only constrained at its two extremes.",
+            "5/C13",
+        ),
+    }
+)
+
 NOT_YET = {}
 
 ALL = ["C%02d" % i for i in range(1, 21)]
